@@ -11,7 +11,7 @@ from ..common import rng_for
 
 LEVEL = "exploration"
 NEEDS = ["harness", "harness:ovf"]
-RULE = ("all shapes with 1..A axes and lengths 1..5 (A=4 quick, 5 thorough), plus 41x41x41 and 17x17x17x17 (more than 2^16 elements), each on the release and the "
+RULE = ("all shapes with 1..A axes and lengths 1..5 (A=4 quick, 5 thorough), plus 41x41x41 and 17x17x17x17 (more than 2^16 elements) and seven shapes with 7-12 axes, each on the release and the "
         "overflow-checked harness; per shape: iter_indices trace past exhaustion, iter_indices call histories mixing next() and nth(k) stepping past the end, get() on every valid index and on "
         "wrong-length/out-of-range indices, get_axis on every (axis, position) incl. axis d, d+1, usize::MAX and "
         "position len, len+1, usize::MAX, every view iterated 2*len+5 times with len() before each call, "
@@ -43,6 +43,9 @@ def plan(tier, seed):
         # beyond the exhaustive bound: two arrays with more than 2^16 elements (views, axis iteration, sums, indexing; no adaptor histories)
         plans.append({"name": "%s-big-a" % kind, "kind": kind, "shapes": [[41, 41, 41]], "big": True})
         plans.append({"name": "%s-big-b" % kind, "kind": kind, "shapes": [[17, 17, 17, 17]], "big": True})
+        # and beyond five axes: 7 to 12 axes of length 1-2 (a fixed-size index or coordinate buffer somewhere would show here)
+        plans.append({"name": "%s-many-axes" % kind, "kind": kind, "shapes": [[2] * 7, [2, 1, 2, 1, 2, 1, 2, 2], [2] * 9, [2] * 10, [1, 2] * 5 + [2], [2] * 12, [3, 2, 2, 2, 2, 2, 2, 2, 2, 3]],
+                      "big": True})
     return plans
 
 
